@@ -10,10 +10,14 @@ package main
 // which is a completeness threshold for reachability.
 
 import (
+	"bufio"
+	"bytes"
 	"fmt"
 	"os"
+	"regexp"
 	"sort"
 	"strings"
+	"sync"
 	"time"
 )
 
@@ -26,38 +30,48 @@ type BMCQuery struct {
 }
 
 type bmc struct {
-	e           *Engine
-	tb          *TermBuilder
-	reg         *l2Registry
-	cfg         *l2Config
-	harness     string
-	threads     []*l2Thread
-	nodeID      map[int]map[string]int
-	term        map[int]map[int]bool // terminal node ids per thread
-	edges       []*l2Edge
-	depth       map[*l2Edge]int
-	K           int
-	cons        []*Term // the transition system unrolled
-	selVar      []*Term
-	viol        map[string][]*Term // label -> disjuncts
-	violPos     map[string]string
-	reach       map[string][]*Term
-	enabled     [][]*Term // [step][edge index] enabledness with substitution (computed lazily)
-	locs        []string
-	solver      *Solver
-	primary     *Solver
-	fallback    *Solver
-	fallbacks   []string
-	po          *po
-	reachMemo   map[[2]int]bool
-	bySrcAll    map[int]map[string][]*l2Edge
-	stepEnc     bool
-	guards      map[*l2Edge]*Term
-	latest      map[*l2Edge]int
-	latestLocal map[*l2Edge]int
-	dumpN       int
-	vars        map[string]Sort
-	carry       []map[string][]struct {
+	e                     *Engine
+	tb                    *TermBuilder
+	reg                   *l2Registry
+	cfg                   *l2Config
+	harness               string
+	threads               []*l2Thread
+	nodeID                map[int]map[string]int
+	term                  map[int]map[int]bool // terminal node ids per thread
+	edges                 []*l2Edge
+	depth                 map[*l2Edge]int
+	K                     int
+	cons                  []*Term // the transition system unrolled
+	selVar                []*Term
+	viol                  map[string][]*Term // label -> disjuncts
+	violPos               map[string]string
+	reach                 map[string][]*Term
+	enabled               [][]*Term // [step][edge index] enabledness with substitution (computed lazily)
+	locs                  []string
+	solver                *Solver
+	reachQ, knownQ, violQ []prepQuery
+	anyViol               *Term
+	info                  string
+	prefixOnce            sync.Once
+	prefix                []byte
+	prefixEmitted         map[int]bool
+	prefixFuns            map[string]bool
+	statMu                sync.Mutex
+	queries               int
+	solverS               float64
+	primary               *Solver
+	fallback              *Solver
+	fallbacks             []string
+	po                    *po
+	reachMemo             map[[2]int]bool
+	bySrcAll              map[int]map[string][]*l2Edge
+	stepEnc               bool
+	guards                map[*l2Edge]*Term
+	latest                map[*l2Edge]int
+	latestLocal           map[*l2Edge]int
+	dumpN                 int
+	vars                  map[string]Sort
+	carry                 []map[string][]struct {
 		fire *Term
 		val  *Term
 	}
@@ -600,89 +614,83 @@ func (b *bmc) notAllTerminalAt(step int) *Term {
 // queries
 // ---------------------------------------------------------------------------
 
-// check decides cons ∧ extra. Primary: the persistent z3 process (incremental); if it gives up
-// within its time slice, the same query is handed to fresh cvc5 and z3-new processes (portfolio).
-func (b *bmc) check(extra ...*Term) (SatResult, float64) {
+// oneShot decides cons ∧ extra with a fresh, non-incremental solver process (z3's incremental
+// core showed erratic run times on these formulas: the same query took 0.1 s or 6 min depending
+// on the queries before it). The constraint system is emitted once per configuration and
+// replayed as text. Portfolio: z3, then cvc5, then z3-new.
+func (b *bmc) oneShot(extra []*Term) (SatResult, *Solver, float64) {
 	t0 := time.Now()
-	if b.solver == nil {
-		b.solver = NewSolver(b.tb, b.e.solver.Name, b.primaryTimeout())
+	b.prefixOnce.Do(func() {
+		ps := &Solver{tb: b.tb, emitted: map[int]bool{}, funs: map[string]bool{}, Name: "prefix"}
+		var buf bytes.Buffer
+		ps.in = bufio.NewWriter(&buf)
 		for _, c := range b.cons {
-			b.solver.Assert(c)
+			ps.Assert(c)
 		}
-		b.primary = b.solver
-	}
-	if d := os.Getenv("SYMGO_DUMP"); d != "" {
-		b.dumpN++
-		f, err := os.Create(fmt.Sprintf("%s/q%d.smt2", d, b.dumpN))
-		if err == nil {
-			ds := &Solver{tb: b.tb, emitted: map[int]bool{}, funs: map[string]bool{}, Name: "dump"}
-			ds.in = nopCloser{f}
-			for _, c := range b.cons {
-				ds.Assert(c)
-			}
-			for _, c := range extra {
-				ds.Assert(c)
-			}
-			ds.send("(check-sat)")
-			f.Close()
+		ps.in.Flush()
+		b.prefix = buf.Bytes()
+		b.prefixEmitted = ps.emitted
+		b.prefixFuns = ps.funs
+		if d := os.Getenv("SYMGO_DUMP"); d != "" {
+			os.WriteFile(fmt.Sprintf("%s/%s-%s.smt2", d, b.harness, b.cfg.Key), b.prefix, 0o644)
 		}
-	}
-	b.solver = b.primary
-	r := b.primary.Check(extra)
-	if r == ResUnknown {
-		for _, name := range []string{"cvc5", "z3-new"} {
-			if name == b.primary.Name {
-				continue
-			}
-			fs := NewSolver(b.tb, name, b.e.solver.TimeoutS)
-			if name == "cvc5" {
-				// non-incremental cvc5 is much faster on these queries
-				fs.Close()
-				fs = &Solver{tb: b.tb, emitted: map[int]bool{}, funs: map[string]bool{}, Name: name, TimeoutS: b.e.solver.TimeoutS,
-					Args: []string{"--lang=smt2", "--produce-models", fmt.Sprintf("--tlimit=%d", b.e.solver.TimeoutS*1000)}}
-				fs.start()
-			}
-			for _, c := range b.cons {
-				fs.Assert(c)
-			}
-			for _, c := range extra {
-				fs.Assert(c)
-			}
-			func() {
-				defer func() {
-					if x := recover(); x != nil {
-						r = ResUnknown // solver died / timed out hard
-					}
-				}()
-				r = fs.Check(nil)
-			}()
-			b.fallbacks = append(b.fallbacks, fmt.Sprintf("%s:%s", name, r))
-			if r != ResUnknown {
-				if b.fallback != nil {
-					b.fallback.Close()
+	})
+	var answers []string
+	for _, name := range []string{"z3", "cvc5", "z3-new"} {
+		fs := &Solver{tb: b.tb, emitted: map[int]bool{}, funs: map[string]bool{}, Name: name, TimeoutS: b.e.solver.TimeoutS}
+		switch name {
+		case "cvc5":
+			fs.Args = []string{"--lang=smt2", "--produce-models", fmt.Sprintf("--tlimit=%d", fs.TimeoutS*1000)}
+		default:
+			fs.Args = []string{"-in", fmt.Sprintf("-t:%d", fs.TimeoutS*1000)}
+		}
+		fs.start()
+		for k := range b.prefixEmitted {
+			fs.emitted[k] = true
+		}
+		for k := range b.prefixFuns {
+			fs.funs[k] = true
+		}
+		fs.in.Write(b.prefix)
+		for _, c := range extra {
+			fs.Assert(c)
+		}
+		r := ResUnknown
+		func() {
+			defer func() {
+				if x := recover(); x != nil {
+					r = ResUnknown
 				}
-				b.fallback = fs
-				b.solver = fs // model values come from the solver that answered
-				break
-			}
-			fs.Close()
+			}()
+			r = fs.Check(nil)
+		}()
+		b.statMu.Lock()
+		b.queries++
+		b.solverS += fs.Seconds
+		if name != "z3" {
+			b.fallbacks = append(b.fallbacks, fmt.Sprintf("%s:%s", name, r))
 		}
+		b.statMu.Unlock()
+		answers = append(answers, name+":"+r.String())
+		if r != ResUnknown {
+			return r, fs, time.Since(t0).Seconds()
+		}
+		fs.Close()
 	}
-	return r, time.Since(t0).Seconds()
-}
-
-func (b *bmc) primaryTimeout() int {
-	t := b.e.solver.TimeoutS / 4
-	if t < 10 {
-		t = 10
-	}
-	return t
+	return ResUnknown, nil, time.Since(t0).Seconds()
 }
 
 type nopCloser struct{ w *os.File }
 
 func (n nopCloser) Write(p []byte) (int, error) { return n.w.Write(p) }
 func (n nopCloser) Close() error                { return nil }
+
+func (b *bmc) traceFrom(fs *Solver) []string {
+	if !b.stepEnc {
+		return b.poTraceFrom(fs)
+	}
+	return nil
+}
 
 func (b *bmc) trace() []string {
 	if !b.stepEnc {
@@ -758,22 +766,19 @@ func (b *bmc) dumpAutomata() {
 	}
 }
 
-func (b *bmc) run(res *L2Result) {
+type prepQuery struct {
+	kind, label string
+	terms       []*Term
+	knownID     string
+	knownClass  string
+}
+
+// prepare builds the constraint system and every query term (sequential: uses the term builder).
+func (b *bmc) prepare(res *L2Result) {
 	tb := b.tb
 	if os.Getenv("SYMGO_AUTOMATA") != "" {
 		b.dumpAutomata()
 	}
-	defer func() {
-		if b.primary != nil {
-			res.BMCSolverS += b.primary.Seconds
-			res.BMCQueries += b.primary.Queries
-			b.primary.Close()
-		}
-		if b.fallback != nil {
-			b.fallback.Close()
-		}
-		res.Fallbacks = append(res.Fallbacks, b.fallbacks...)
-	}()
 	t0 := time.Now()
 	b.stepEnc = os.Getenv("SYMGO_STEP") != "" || b.cfg.Options["step-encoding"]
 	if b.stepEnc {
@@ -794,17 +799,6 @@ func (b *bmc) run(res *L2Result) {
 		res.Steps = b.K
 	}
 	res.Locations = len(b.vars)
-	res.CfgInfo = append(res.CfgInfo, fmt.Sprintf("config %q: threads=%d edges=%d steps=%d state-vars=%d build=%.1fs", b.cfg.Key, len(b.threads), len(b.edges), b.K, len(b.vars), time.Since(t0).Seconds()))
-	if os.Getenv("SYMGO_PROGRESS") != "" {
-		fmt.Fprintf(os.Stderr, "[%s] BMC %s\n", b.harness, res.CfgInfo[len(res.CfgInfo)-1])
-	}
-	record := func(kind, label string, r SatResult, s float64) {
-		res.Queries = append(res.Queries, BMCQuery{b.cfg.Key, kind, label, r.String(), s})
-		if os.Getenv("SYMGO_PROGRESS") != "" {
-			fmt.Fprintf(os.Stderr, "[%s]   %s %q: %s %.1fs\n", b.harness, kind, label, r, s)
-		}
-	}
-	// optional: deadlock freedom
 	if b.cfg.Options["deadlock"] {
 		label := "auto:no-deadlock"
 		if b.stepEnc {
@@ -820,42 +814,26 @@ func (b *bmc) run(res *L2Result) {
 			b.poRaces()
 		}
 	}
-	// sanity: the unrolled system itself is satisfiable
-	r, s := b.check()
-	record("sanity", "transition system satisfiable", r, s)
-	if r != ResSat {
-		panic(engineErr("BMC: transition system is not satisfiable (%s)", r))
-	}
-	// reachability witnesses
 	var labels []string
 	for l := range b.reach {
 		labels = append(labels, l)
 	}
 	sort.Strings(labels)
 	for _, l := range labels {
-		r, s := b.check(tb.Or(b.reach[l]...))
-		record("reach", l, r, s)
-		if r == ResSat {
-			res.Reach[l]++
-			if len(res.Witnesses) < 2 && (l == "quiescence" || len(labels) < 3 || l == labels[len(labels)-1]) {
-				res.Witnesses = append(res.Witnesses, "config "+b.cfg.Key+", witness for \""+l+"\":\n"+strings.Join(b.trace(), "\n"))
-			}
+		if !labelSelected(l) {
+			continue
 		}
-		if r == ResUnknown {
-			panic(engineErr("BMC: solver unknown on reachability of %q", l))
-		}
+		b.reachQ = append(b.reachQ, prepQuery{kind: "reach", label: l, terms: []*Term{tb.Or(b.reach[l]...)}})
 	}
-	// violations, label by label
 	labels = nil
 	for l := range b.viol {
 		labels = append(labels, l)
 	}
 	sort.Strings(labels)
+	var all []*Term
 	for _, l := range labels {
-		rec := res.Asserts[l]
-		if rec == nil {
-			rec = &AssertRec{Label: l}
-			res.Asserts[l] = rec
+		if !labelSelected(l) {
+			continue
 		}
 		bad := tb.Or(b.viol[l]...)
 		var knownConds []*Term
@@ -865,11 +843,7 @@ func (b *bmc) run(res *L2Result) {
 			}
 			for _, c := range b.cfg.Classes {
 				if c.name == k.Class {
-					r, s := b.check(bad, c.cond)
-					record("known", l+" / "+k.Class, r, s)
-					if r == ResSat {
-						res.Violations = append(res.Violations, Violation{Harness: b.harness, Label: l, Kind: "assert", Model: b.solver.Values(b.cfg.Inputs), Classes: []string{c.name}, Known: k.ID, Notes: b.trace(), Path: b.cfg.Key})
-					}
+					b.knownQ = append(b.knownQ, prepQuery{kind: "known", label: l, terms: []*Term{bad, c.cond}, knownID: k.ID, knownClass: k.Class})
 					knownConds = append(knownConds, c.cond)
 				}
 			}
@@ -878,39 +852,172 @@ func (b *bmc) run(res *L2Result) {
 		if len(knownConds) > 0 {
 			q = append(q, tb.Not(tb.Or(knownConds...)))
 		}
-		r, s := b.check(q...)
-		record("violation", l, r, s)
-		switch r {
-		case ResUnsat:
-			rec.OK++
-		case ResUnknown:
-			rec.Unknown++
-			panic(engineErr("BMC: solver unknown on %q", l))
-		case ResSat:
-			rec.Violated++
-			m := b.solver.Values(b.cfg.Inputs)
-			tr := b.trace()
-			var cls []string
-			for _, c := range b.cfg.Classes {
-				vv := b.solver.Values([]*Term{c.cond})
-				for _, x := range vv {
-					if x == "true" {
-						cls = append(cls, c.name)
+		b.violQ = append(b.violQ, prepQuery{kind: "violation", label: l, terms: q})
+		all = append(all, tb.And(q...))
+	}
+	b.anyViol = tb.Or(all...)
+	b.info = fmt.Sprintf("config %q: threads=%d edges=%d steps=%d locations=%d constraints=%d build=%.1fs", b.cfg.Key, len(b.threads), len(b.edges), b.K, len(b.vars), len(b.cons), time.Since(t0).Seconds())
+}
+
+// solve discharges the prepared queries; every query is an independent one-shot solver run,
+// all of them (over all configurations) share one worker pool.
+func (b *bmc) solve(res *L2Result, mu *sync.Mutex, sem chan struct{}) {
+	mu.Lock()
+	res.CfgInfo = append(res.CfgInfo, b.info)
+	mu.Unlock()
+	if os.Getenv("SYMGO_PROGRESS") != "" {
+		fmt.Fprintf(os.Stderr, "[%s] BMC %s\n", b.harness, b.info)
+	}
+	record := func(kind, label string, r SatResult, s float64) {
+		mu.Lock()
+		res.Queries = append(res.Queries, BMCQuery{b.cfg.Key, kind, label, r.String(), s})
+		mu.Unlock()
+		if os.Getenv("SYMGO_PROGRESS") != "" {
+			fmt.Fprintf(os.Stderr, "[%s]   %s %s %q: %s %.1fs\n", b.harness, b.cfg.Key, kind, label, r, s)
+		}
+	}
+	rec := func(l string) *AssertRec {
+		r := res.Asserts[l]
+		if r == nil {
+			r = &AssertRec{Label: l}
+			res.Asserts[l] = r
+		}
+		return r
+	}
+	var wg sync.WaitGroup
+	var errMu sync.Mutex
+	var firstErr interface{}
+	task := func(f func()) {
+		wg.Add(1)
+		go func() {
+			defer wg.Done()
+			sem <- struct{}{}
+			defer func() { <-sem }()
+			defer func() {
+				if x := recover(); x != nil {
+					errMu.Lock()
+					if firstErr == nil {
+						firstErr = x
+					}
+					errMu.Unlock()
+				}
+			}()
+			f()
+		}()
+	}
+	// sanity: the system itself is satisfiable
+	task(func() {
+		r, fs, s := b.oneShot(nil)
+		if fs != nil {
+			fs.Close()
+		}
+		record("sanity", "transition system satisfiable", r, s)
+		if r != ResSat {
+			panic(engineErr("BMC: transition system of configuration %s is not satisfiable (%s)", b.cfg.Key, r))
+		}
+	})
+	for qi, q := range b.reachQ {
+		qi, q := qi, q
+		task(func() {
+			r, fs, s := b.oneShot(q.terms)
+			record("reach", q.label, r, s)
+			if r == ResSat {
+				b.solver = fs
+				var tr []string
+				if q.label == "quiescence" || qi == len(b.reachQ)-1 {
+					tr = b.traceFrom(fs)
+				}
+				mu.Lock()
+				res.Reach[q.label]++
+				if tr != nil && len(res.Witnesses) < 2 {
+					res.Witnesses = append(res.Witnesses, "config "+b.cfg.Key+", witness for \""+q.label+"\":\n"+strings.Join(tr, "\n"))
+				}
+				mu.Unlock()
+			}
+			if fs != nil {
+				fs.Close()
+			}
+			if r == ResUnknown {
+				panic(engineErr("BMC: solver unknown on reachability of %q", q.label))
+			}
+		})
+	}
+	for _, q := range b.knownQ {
+		q := q
+		task(func() {
+			r, fs, s := b.oneShot(q.terms)
+			record("known", q.label+" / "+q.knownClass, r, s)
+			if r == ResSat {
+				v := Violation{Harness: b.harness, Label: q.label, Kind: "assert", Model: fs.Values(b.cfg.Inputs), Classes: []string{q.knownClass}, Known: q.knownID, Notes: b.traceFrom(fs), Path: b.cfg.Key}
+				mu.Lock()
+				res.Violations = append(res.Violations, v)
+				mu.Unlock()
+			}
+			if fs != nil {
+				fs.Close()
+			}
+		})
+	}
+	for _, q := range b.violQ {
+		q := q
+		task(func() {
+			r, fs, s := b.oneShot(q.terms)
+			record("violation", q.label, r, s)
+			defer func() {
+				if fs != nil {
+					fs.Close()
+				}
+			}()
+			switch r {
+			case ResUnsat:
+				mu.Lock()
+				rec(q.label).OK++
+				mu.Unlock()
+			case ResUnknown:
+				mu.Lock()
+				rec(q.label).Unknown++
+				mu.Unlock()
+				panic(engineErr("BMC: solver unknown on %q", q.label))
+			case ResSat:
+				m := fs.Values(b.cfg.Inputs)
+				tr := b.traceFrom(fs)
+				var cls []string
+				for _, c := range b.cfg.Classes {
+					if c.cond.IsConst() {
+						if c.cond.B {
+							cls = append(cls, c.name)
+						}
+						continue
+					}
+					vv := fs.Values([]*Term{c.cond})
+					for _, x := range vv {
+						if x == "true" {
+							cls = append(cls, c.name)
+						}
 					}
 				}
-				if c.cond.IsConst() && c.cond.B {
-					cls = append(cls, c.name)
+				kind := "assert"
+				if strings.HasPrefix(q.label, "auto:race") {
+					kind = "race"
 				}
+				mu.Lock()
+				rec(q.label).Violated++
+				res.Violations = append(res.Violations, Violation{Harness: b.harness, Label: q.label, Kind: kind, Msg: b.violPos[q.label], Model: m, Classes: cls, Notes: tr, Path: b.cfg.Key})
+				if len(res.Traces) < 6 {
+					res.Traces = append(res.Traces, q.label+":\n  "+strings.Join(tr, "\n  "))
+				}
+				mu.Unlock()
 			}
-			kind := "assert"
-			if strings.HasPrefix(l, "auto:race") {
-				kind = "race"
-			}
-			res.Violations = append(res.Violations, Violation{Harness: b.harness, Label: l, Kind: kind, Msg: b.violPos[l], Model: m, Classes: cls, Notes: tr, Path: b.cfg.Key})
-			if len(res.Traces) < 6 {
-				res.Traces = append(res.Traces, l+":\n  "+strings.Join(tr, "\n  "))
-			}
-		}
+		})
+	}
+	wg.Wait()
+	mu.Lock()
+	res.BMCSolverS += b.solverS
+	res.BMCQueries += b.queries
+	res.Fallbacks = append(res.Fallbacks, b.fallbacks...)
+	mu.Unlock()
+	if firstErr != nil {
+		panic(firstErr)
 	}
 }
 
@@ -1108,4 +1215,11 @@ func mergeAutomaton(t *l2Thread) {
 		i++
 		t.Edges[fmt.Sprintf("%06d", i)] = newEdges[k]
 	}
+}
+
+// only labels matching this expression are queried (a property check selects its own assertions)
+var labelFilter *regexp.Regexp
+
+func labelSelected(l string) bool {
+	return labelFilter == nil || labelFilter.MatchString(l)
 }
